@@ -1,21 +1,25 @@
 package main
 
 import (
+	"encoding/hex"
 	"encoding/json"
 	"fmt"
 	"math/rand"
 	"strings"
 	"unicode"
+	"unicode/utf8"
 
 	"gosrc.io/xmpp/stanza"
 )
 
 // C15: stanza.NewJid / Jid.Full / Jid.Bare vs Model/Jid.v.
 //
-// Inputs are valid UTF-8 only (the model works on code points; Go's byte-level
-// SplitN and rune-level IndexFunc agree with it exactly on valid UTF-8).
+// Inputs are arbitrary byte strings.  The model works on units: one code point per
+// well-formed UTF-8 sequence, 0x110000+b for a byte b outside one (c15Units; the inverse
+// is sxStr), so strings are compared byte-exactly also where they are not valid UTF-8.
 type c15In struct {
 	S    string `json:"s"`              // the string handed to NewJid
+	X    string `json:"x,omitempty"`    // hex of the bytes of S when S is not valid UTF-8 (JSON cannot carry it)
 	Kind string `json:"kind"`           // raw | parts | bad
 	Form string `json:"form,omitempty"` // parts: ldr ld dr d; bad: the reason it is malformed
 	L    string `json:"l,omitempty"`    // parts: the triple the string was built from
@@ -31,7 +35,7 @@ func (c15) ID() string    { return "C15" }
 func (c15) RunFn() string { return "run_C15" }
 func (c15) Workers() int  { return 8 }
 func (c15) Rule() string {
-	return "every string of length <= 4 over {a @ / space \" & U+00A0} (2801, exhaustive) + random (40% well-formed [l@]d[/r] built from triples over the accepted classes incl. non-ASCII and astral, resource with '/' '@' spaces; 30% built malformed: empty, empty local, empty domain, every Unicode space and every forbidden character (local part: the eight of RFC 7622 3.3.1; domain: @ / ' \" < > &) at a random position of local part or domain; 30% unstructured strings over ASCII, all rejected characters, all Unicode spaces, non-ASCII, astral); valid UTF-8 only; strings with a '/' before the first '@' are run but projected to a constant on both sides (outside the property); distinct = distinct input string; non-trivial = at least 3 code points and at least one '@' or '/'"
+	return "every string of length <= 4 over {a @ / space \" & U+00A0} (2801, exhaustive) + every string of <= 3 pieces over {a @ / 0x80 0xE2,0x80 0xC0,0xAF} (259, exhaustive; bytes outside well-formed UTF-8) + random (40% well-formed [l@]d[/r] built from triples over the accepted classes incl. non-ASCII and astral, resource with '/' '@' spaces; 30% built malformed: empty, empty local, empty domain, every Unicode space and every forbidden character (local part: the eight of RFC 7622 3.3.1; domain: @ / ' \" < > &) at a random position of local part or domain; 30% unstructured strings over ASCII, all rejected characters, all Unicode spaces, non-ASCII, astral); one case in six of each kind additionally gets 1-3 ill-formed UTF-8 pieces (lone continuation and lead bytes, 0xC0/0xC1/0xF5-0xFF, truncated sequences incl. the prefix of U+2028, overlong '/' and '@', encoded surrogates) spliced in at random places, compared byte-exactly; strings with a '/' before the first '@' are run but projected to a constant on both sides (outside the property); distinct = distinct input string; non-trivial = at least 3 code points and at least one '@' or '/'"
 }
 
 // ---- the property's character classes, written independently of /repo ----
@@ -41,11 +45,63 @@ func (c15) Rule() string {
 const c15LocalForbidden = "\"&'/:<>@"
 const c15DomainForbidden = "\"&'/<>@"
 
+// white space: Unicode's White_Space property written out (25 code points), NOT the toolchain's
+// unicode.IsSpace which the library calls and from which the model's table is dumped
+// (Props/C15.v C15_space_table pins that dump to the same list).
+var c15WhiteSpace = []rune{9, 10, 11, 12, 13, 32, 133, 160, 5760, 8192, 8193, 8194, 8195, 8196, 8197, 8198, 8199,
+	8200, 8201, 8202, 8232, 8233, 8239, 8287, 12288}
+
+func c15IsSpace(c rune) bool {
+	for _, w := range c15WhiteSpace {
+		if c == w {
+			return true
+		}
+	}
+	return false
+}
+
 func c15LocalOK(c rune) bool {
-	return !unicode.IsSpace(c) && !strings.ContainsRune(c15LocalForbidden, c)
+	return !c15IsSpace(c) && !strings.ContainsRune(c15LocalForbidden, c)
 }
 func c15DomainOK(c rune) bool {
-	return !unicode.IsSpace(c) && !strings.ContainsRune(c15DomainForbidden, c)
+	return !c15IsSpace(c) && !strings.ContainsRune(c15DomainForbidden, c)
+}
+
+// c15Units: Go's own reading of a byte string (utf8.DecodeRune), keeping the byte where it
+// is not part of a well-formed sequence.
+func c15Units(s string) Sx {
+	v := make([]int64, 0, len(s))
+	for i := 0; i < len(s); {
+		c, w := utf8.DecodeRuneInString(s[i:])
+		if c == utf8.RuneError && w == 1 {
+			v = append(v, 0x110000+int64(s[i]))
+		} else {
+			v = append(v, int64(c))
+		}
+		i += w
+	}
+	return Sx{K: "s", S: v}
+}
+
+func c15Mk(in c15In) c15In {
+	if !utf8.ValidString(in.S) {
+		in.X = hex.EncodeToString([]byte(in.S))
+	}
+	return in
+}
+
+// ill-formed UTF-8 pieces
+var c15IllFormed = []string{"\x80", "\xbf", "\xc2", "\xe2", "\xf0", "\xc0", "\xc1", "\xf5", "\xff", "\xfe",
+	"\xe2\x80", "\xe2\x82", "\xf0\x9f\x98", "\xc0\xaf", "\xc1\x80", "\xe0\x80\xaf", "\xed\xa0\x80", "\xed\xbf\xbf", "\xf4\x90\x80\x80", "\xa8"}
+
+// c15Splice inserts 1-3 ill-formed pieces at random BYTE positions (so a piece may also cut a
+// well-formed sequence in two, leaving both halves ill-formed).
+func c15Splice(r *rand.Rand, s string) string {
+	for k := 1 + r.Intn(3); k > 0; k-- {
+		p := r.Intn(len(s) + 1)
+		s = s[:p] + c15IllFormed[r.Intn(len(c15IllFormed))] + s[p:]
+	}
+	return s
 }
 
 func c15All(s string, ok func(rune) bool) bool {
@@ -208,6 +264,25 @@ func (c15) Gen(r *rand.Rand, tier string) []interface{} {
 		}
 		level = next
 	}
+	// exhaustive: every string of <= 3 pieces over an alphabet with bytes outside well-formed UTF-8
+	// (a lone continuation byte, the two-byte prefix of U+2028 LINE SEPARATOR, an overlong '/')
+	alphaX := []string{"a", "@", "/", "\x80", "\xe2\x80", "\xc0\xaf"}
+	level = []string{""}
+	for l := 0; l <= 3; l++ {
+		for _, s := range level {
+			out = append(out, c15Mk(c15In{S: s, Kind: "raw"}))
+		}
+		var next []string
+		for _, s := range level {
+			for _, a := range alphaX {
+				next = append(next, s+a)
+			}
+		}
+		level = next
+	}
+	for _, s := range []string{"u\xff@d", "u@d\xff/r", "u@d/\xff", "d\x80/r\x80", "\xe2\x80@\xa8", "u\xe2\x80\xa8@d", "u@d/\xe2\x80", "\xff", "\xff@\xfe/\xfd", "u\xc1\x80d", "u@d\xc0\xafr"} {
+		out = append(out, c15Mk(c15In{S: s, Kind: "raw"}))
+	}
 	// fixed: the cases of the repository's own tests and of finding D4
 	for _, s := range []string{"d/r", "example.org/res/a b", "test@domain.com/my resource", "test@domain.com/a/b@c", "domain.com", "test@domain.com@otherdomain.com", "test@domain com/resource", "test@/r", "te:st@domain.com",
 		"us&er@example.org", "user@exa'mple.org/res", "user@a&b.org", "user@x'><auth><a.b='/res", "[::1]", "u@[2001:db8::1]/r"} {
@@ -234,8 +309,17 @@ func (c15) Gen(r *rand.Rand, tier string) []interface{} {
 					in.R = c15Insert(r, in.R, '/')
 				}
 			}
+			if r.Intn(6) == 0 { // bytes outside well-formed UTF-8 are ordinary characters of any part
+				in.D = c15Splice(r, in.D)
+				if in.L != "" && r.Intn(2) == 0 {
+					in.L = c15Splice(r, in.L)
+				}
+				if in.R != "" && r.Intn(2) == 0 {
+					in.R = c15Splice(r, in.R)
+				}
+			}
 			in.S = c15Build(form, in.L, in.D, in.R)
-			out = append(out, in)
+			out = append(out, c15Mk(in))
 		case k < 7: // built to be malformed
 			l := c15Str(r, 1, 6, c15LocalOK)
 			d := c15Str(r, 1, 6, c15DomainOK)
@@ -267,24 +351,23 @@ func (c15) Gen(r *rand.Rand, tier string) []interface{} {
 			default: // a space in a bare domain
 				in.Form, in.S = "bad-domain", c15Insert(r, d, c15Spaces[r.Intn(len(c15Spaces))])+tail
 			}
-			out = append(out, in)
+			if r.Intn(6) == 0 { // a splice may repair the defect ("@d" -> "\x80@d"): judged on the string alone
+				in = c15In{Kind: "raw", S: c15Splice(r, in.S)}
+			}
+			out = append(out, c15Mk(in))
 		default: // unstructured
 			s := c15Str(r, 0, 12, nil)
 			for j := r.Intn(3); j > 0; j-- { // make separators likelier
 				s = c15Insert(r, s, rune("@/"[r.Intn(2)]))
 			}
-			out = append(out, c15In{S: s, Kind: "raw"})
+			if r.Intn(6) == 0 {
+				s = c15Splice(r, s)
+			}
+			out = append(out, c15Mk(c15In{S: s, Kind: "raw"}))
 		}
 	}
 	out = append(out, c15In{S: "", Kind: "bad", Form: "empty"})
-	// keep invalid UTF-8 out (cannot arise from the generators above; replay files could carry it)
-	kept := out[:0]
-	for _, x := range out {
-		if validUTF8(x.(c15In).S) {
-			kept = append(kept, x)
-		}
-	}
-	return kept
+	return out
 }
 
 func (c15) Decode(raw json.RawMessage) (interface{}, error) {
@@ -292,6 +375,17 @@ func (c15) Decode(raw json.RawMessage) (interface{}, error) {
 	err := json.Unmarshal(raw, &in)
 	if err == nil && in.Kind == "" {
 		in.Kind = "raw"
+	}
+	if err == nil && in.X != "" {
+		b, herr := hex.DecodeString(in.X)
+		if herr != nil {
+			return in, herr
+		}
+		in.S = string(b)
+		// the parts of a spliced triple cannot travel in JSON either: the case is then judged on the string alone
+		if in.Kind == "parts" && in.S != c15Build(in.Form, in.L, in.D, in.R) {
+			in.Kind, in.Form, in.L, in.D, in.R = "raw", "", "", "", ""
+		}
 	}
 	return in, err
 }
@@ -304,7 +398,7 @@ func c15Res(j *stanza.Jid, err error) Sx {
 	if j == nil {
 		return L(Z(97)) // nil Jid without an error: nothing the model can produce
 	}
-	return L(Z(1), SRunes(j.Node), SRunes(j.Domain), SRunes(j.Resource))
+	return L(Z(1), c15Units(j.Node), c15Units(j.Domain), c15Units(j.Resource))
 }
 
 func (c15) Run(inp interface{}) Sx {
@@ -325,17 +419,21 @@ func (c15) Run(inp interface{}) Sx {
 		return L(Z(97))
 	}
 	full, bare := j.Full(), j.Bare()
-	return L(Z(1), SRunes(j.Node), SRunes(j.Domain), SRunes(j.Resource), SRunes(full), SRunes(bare),
+	return L(Z(1), c15Units(j.Node), c15Units(j.Domain), c15Units(j.Resource), c15Units(full), c15Units(bare),
 		c15Res(stanza.NewJid(full)), c15Res(stanza.NewJid(bare)))
 }
 
-func (c15) Input(inp interface{}) Sx { return SRunes(inp.(c15In).S) }
+func (c15) Input(inp interface{}) Sx { return c15Units(inp.(c15In).S) }
 
 // ---- direct oracle: the three clauses of the property on the implementation alone ----
-func sxStr(x Sx) string {
+func sxStr(x Sx) string { // inverse of c15Units
 	var b strings.Builder
 	for _, v := range x.S {
-		b.WriteRune(rune(v))
+		if v >= 0x110000 {
+			b.WriteByte(byte(v - 0x110000))
+		} else {
+			b.WriteRune(rune(v))
+		}
 	}
 	return b.String()
 }
@@ -391,6 +489,10 @@ func (c15) Oracle(inp interface{}, obs Sx) (string, string) {
 		}
 		full, bare := sxStr(obs.L[4]), sxStr(obs.L[5])
 		rf, rb := obs.L[6], obs.L[7]
+		// an accepted string is the rendering of what it was parsed to (byte for byte; "d/" and "l@d/" read as no resource)
+		if full != in.S && !(res == "" && full+"/" == in.S) {
+			return fmt.Sprintf("NewJid(%q) = {%q %q %q} but Full() = %q is not the input", in.S, n, d, res, full), "full-not-input:" + shape
+		}
 		if len(rf.L) != 4 || rf.L[0].Z != 1 || sxStr(rf.L[1]) != n || sxStr(rf.L[2]) != d || sxStr(rf.L[3]) != res {
 			return fmt.Sprintf("NewJid(%q) = {%q %q %q}; Full() = %q; NewJid(Full()) = %s, not the same JID", in.S, n, d, res, full, c15Show(rf)), "roundtrip-full:" + shape
 		}
@@ -432,6 +534,9 @@ func (c15) Key(inp interface{}) (string, bool) {
 	}
 	if !ascii {
 		hist("chars:non-ascii")
+	}
+	if !utf8.ValidString(in.S) {
+		hist("chars:ill-formed-utf8")
 	}
 	switch {
 	case nr <= 4:
